@@ -220,6 +220,17 @@ func checkCase(c Case) error {
 		if consumed() != len(input) {
 			return vt.Violationf(classFor(ty, "decoder-consumed"), "Decode(%s) consumed %d of %d bytes", c.Sig, consumed(), len(input))
 		}
+		// once more into the destination which now holds the value (a caller
+		// which reuses its variable): the same bytes give the same value
+		r2, consumed2 := hio.Source(c.Source, append(append([]byte{}, input...), trailer...), c.Chunks, false)
+		err, p = safely(func() error { return encoding.NewDecoder(encoding.DefaultCap(), r2).Decode(ptr.Interface()) })
+		if p != nil || err != nil {
+			return vt.Violationf(classFor(ty, "decoder-error:used-destination"), "Decode(%s) of %s (%s) into a destination which already holds that value failed: %v %v", c.Sig, which, c.Desc, err, p)
+		}
+		got2, err := bridge.FromGo(ty, ptr.Elem())
+		if err != nil || !ref.Equal(got2, v) || consumed2() != len(input) {
+			return vt.Violationf(classFor(ty, "decoder-value:used-destination"), "Decode(%s) of %s into a destination which already holds that value = %s (%v, consumed %d of %d), want %s", c.Sig, which, ref.Render(got2), err, consumed2(), len(input), c.Desc)
+		}
 	}
 
 	// (e) the Go type which the LIBRARY derives from the signature (the one
